@@ -11,6 +11,7 @@ func TestSmoke(t *testing.T) {
 	dir := t.TempDir()
 	synctest.Test(t, func(t *testing.T) {
 		s := New(dir, Opts{HA: []string{"vla-db1", "sas-db2", "myt-db3"}, Workload: true, ResetupTool: true, Seed: 1})
+		s.Start()
 		time.Sleep(60 * time.Second)
 		fmt.Println("master:", s.Master(), "active:", s.ActiveNodes())
 		fmt.Print(s.W.Describe())
